@@ -109,7 +109,7 @@ class C10(Check):
     )
     assumptions = [
         "pieces are whole input scaffolds at bpt 1 (no placement tolerance); a separate small family cuts one scaffold into main + Unloc",
-        "unloc numbering by size is not asserted (the statement claims size order only for chromosomes and haplotigs)",
+        "'in non-increasing length' is read as covering unloc pieces and haplotigs alike; an inversion is reported only if it is one with and without gaps",
         "chromosome 'sequence length' = bases in fragments (gap rows are not sequence); haplotig 'length' is ambiguous, an inversion is reported only if it is one with and without gaps",
     ]
 
@@ -130,11 +130,15 @@ class C10(Check):
                 for fl in MAIN_LENS:
                     out.append(("twohap", pairs, tier, hp, fl))
         out.append(("cut", 0))
+        out.append(("tiny", 0))
         return out
 
     # ------------------------------------------------------------------
-    def run_case(self, inp, scaffolds, prefix, ctx, twohap=False):
-        pvspec = (1.0, scaffolds)
+    def run_pv(self, inp, pvspec, prefix, ctx):
+        self.run_case(inp, pvspec[1], prefix, ctx, bpt=pvspec[0])
+
+    def run_case(self, inp, scaffolds, prefix, ctx, twohap=False, bpt=1.0):
+        pvspec = (bpt, scaffolds)
         case = [pv.jsonable(inp), pv.jsonable(pvspec), prefix]
         ctx.cur = case
         ctx.evaluations += 1
@@ -146,13 +150,16 @@ class C10(Check):
         painted = [s for s in scaffolds if any("Painted" in p[4] for p in s[1])]
         if len(painted) >= 2 or any("Unloc" in p[4] or "Haplotig" in p[4] for s in scaffolds for p in s[1]):
             ctx.nontrivial += 1
-        errs = self.oracle(inp, scaffolds, prefix, ba, out, twohap)
+        errs = self.oracle(inp, scaffolds, prefix, ba, out, twohap, piece_clause=(bpt == 1.0))
         for klass, detail in errs[:3]:
             ctx.violation(klass, case, detail)
         ctx.outcome(h64(pv.out_spec(out)))
 
-    def oracle(self, inp, scaffolds, prefix, ba, out, twohap):
+    def oracle(self, inp, scaffolds, prefix, ba, out, twohap, piece_clause=True):
         errs = []
+        # pieces that are whole input scaffolds cannot lose rows to a neighbour
+        lens = {n: pv.scaffold_length(rows) for n, rows in inp}
+        whole_pieces = all(p[1] == 1 and p[2] == lens[p[0]] for _, ps in scaffolds for p in ps)
         # where did every input scaffold go
         home = {}
         for key, asm in out.items():
@@ -172,10 +179,13 @@ class C10(Check):
 
         # haplotigs
         hasm = out.get("Haplotig")
-        nh = sum(1 for _, ps in scaffolds for p in ps if "Haplotig" in p[4])
+        ntagged = sum(1 for _, ps in scaffolds for p in ps if "Haplotig" in p[4])
         hnames = [s.name for s in hasm.scaffolds] if hasm else []
+        nh = len(hnames)  # H_1..H_n over the haplotigs written (a tagged piece may lose all its rows to a neighbour)
+        if nh > ntagged or (whole_pieces and nh != ntagged):
+            errs.append(("haplotig-count", f"{nh} haplotig scaffolds for {ntagged} tagged pieces"))
         if sorted(hnames, key=nat) != [f"H_{i + 1}" for i in range(nh)]:
-            errs.append(("haplotig-names", f"{hnames!r} for {nh} haplotig pieces"))
+            errs.append(("haplotig-names", f"{hnames!r}: not H_1..H_{nh}"))
         elif hasm:
             by = {s.name: s for s in hasm.scaffolds}
             sz = [size(by[f"H_{i + 1}"]) for i in range(nh)]
@@ -221,6 +231,14 @@ class C10(Check):
             for c, lst in unl.items():
                 if sorted(lst) != list(range(1, len(lst) + 1)):
                     errs.append(("unloc-numbering", f"{key!r}: unlocs of {c} numbered {sorted(lst)!r}"))
+                else:
+                    by = {s.name: s for s in sc}
+                    sz = [size(by[f"{c}_unloc_{i}"]) for i in range(1, len(lst) + 1)]
+                    if any(inversion(sz[i], sz[i + 1]) for i in range(len(sz) - 1)):
+                        # unloc pieces cut out of one contig are ranked before the cut is made (finding D10)
+                        contigs = [next(f.name for f in by[f"{c}_unloc_{i}"].fragments()) for i in range(1, len(lst) + 1)]
+                        shared = len(set(contigs)) < len(contigs)
+                        errs.append(("unlocs-not-by-size" + ("/unlocs-share-a-cut-contig" if shared else ""), f"{key!r}: {c}: {sz!r}"))
             if not twohap or (key or "").lower() == first_hap:
                 ns = sorted(n for n, _, _ in nums)
                 if ns != list(range(1, len(ns) + 1)):
@@ -249,8 +267,8 @@ class C10(Check):
                         errs.append(("csv-name", f"{ln!r} vs {s.name!r}"))
                     elif (cols[2] == "no") != ("_unloc_" in s.name) or cols[2] not in ("yes", "no"):
                         errs.append(("csv-localised", f"{ln!r}"))
-        # name tags and unpainted names, piece by piece
-        for sname, pieces in scaffolds:
+        # name tags and unpainted names, piece by piece (only where a piece is a well-defined set of whole rows)
+        for sname, pieces in scaffolds if piece_clause else ():
             tags = {t for p in pieces for t in p[4]}
             ntag = next((t for t in tags if re.fullmatch(r"([A-Z]\d*|[IVX_]+|\d+[A-Z]+)", t)), None)
             for src, _s, _e, _o, pt in pieces:
@@ -426,13 +444,50 @@ class C10(Check):
                                         ("Scaffold_2", (("ctg_4", 1, 50, 1, ("Painted",)), ("ctg_3", 1, h3, 1, ("Painted", "Haplotig")))),
                                     )
                                     self.run_case(inp, scaffolds, "SUPER_", ctx)
-            ctx.sample({"cut": "one scaffold cut into chromosome + Unloc / + Haplotig (both strands)"})
+            # two Unloc pieces cut out of one contig, and a third whole Unloc whose size lies between them
+            for cut in (8, 12, 20):
+                for third in (10, 14, 30):
+                    inp = (("ctg_1", (("F", "ctg_1", 1, 44, 1),)), ("ctg_2", (("F", "ctg_2", 1, 60, 1),)), ("ctg_3", (("F", "ctg_3", 1, third, 1),)))
+                    scaffolds = (
+                        (
+                            "Scaffold_1",
+                            (
+                                ("ctg_2", 1, 60, 1, ("Painted",)),
+                                ("ctg_1", 1, cut, 1, ("Painted", "Unloc")),
+                                ("ctg_1", cut + 1, 44, 1, ("Painted", "Unloc")),
+                                ("ctg_3", 1, third, 1, ("Painted", "Unloc")),
+                            ),
+                        ),
+                    )
+                    self.run_case(inp, scaffolds, "SUPER_", ctx)
+            ctx.sample({"cut": "one scaffold cut into chromosome + Unloc / + Haplotig (both strands); two Unlocs out of one contig"})
+        elif kind == "tiny":
+            # pieces that can lose all their rows: the sub-texel contig family of the CLI slice (2.5 bp/texel) with a
+            # Haplotig / Unloc tag on one piece, followed by one more whole haplotig / unloc
+            from mc.checks import c03_cli
+
+            for inp0, pvspec in c03_cli.cases("quick"):
+                if inp0 is not c03_cli.INP2:
+                    continue
+                bpt, scs = pvspec
+                if not any("Haplotig" in p[4] for _, ps in scs for p in ps):
+                    continue
+                for tag in ("Haplotig", "Unloc"):
+                    extra_in = ("ctg_x", (("F", "ctg_x", 1, 11, 1),))
+                    inp = (*inp0[:1], extra_in)
+                    new = []
+                    for n, ps in scs:
+                        new.append((n, tuple((p[0], p[1], p[2], p[3], tuple(tag if t == "Haplotig" else t for t in p[4]) + (() if "Painted" in p[4] else ("Painted",))) for p in ps)))
+                    last_n, last_ps = new[-1]
+                    new[-1] = (last_n, (*last_ps, ("ctg_x", 1, 10, 1, ("Painted", tag))))
+                    self.run_pv(inp, (bpt, tuple(new)), "SUPER_", ctx)
+            ctx.sample({"tiny": "sub-texel contig family: a tagged piece may end up with no rows; numbering must stay without holes"})
 
     def replay(self, case, ctx):
         inp, pvspec, prefix = case
         scaffolds = pv.tuplify(pvspec[1])
         twohap = any(hap_of(p[4]) for _, ps in scaffolds for p in ps)
-        self.run_case(pv.tuplify(inp), scaffolds, prefix, ctx, twohap=twohap)
+        self.run_case(pv.tuplify(inp), scaffolds, prefix, ctx, twohap=twohap, bpt=pvspec[0])
 
 
 CHECK = C10()
